@@ -39,6 +39,7 @@ type lkRoute struct {
 	PreDoc  []string  `json:"preDoc,omitempty"` // raw lines placed before the annotations
 	Noise   int       `json:"noise,omitempty"`  // free-text / multibyte lines before the annotations
 	File    string    `json:"file"`
+	Pkg2    bool      `json:"pkg2,omitempty"` // the route's controller lives in package api2, whose ApiError is a plain struct
 }
 
 type lkCtrl struct {
@@ -47,6 +48,7 @@ type lkCtrl struct {
 	File   string    `json:"file"`
 	Routes []lkRoute `json:"routes"`
 	NoTag  bool      `json:"noTag,omitempty"` // the controller carries no @Tag (a warning, not an error)
+	Pkg2   bool      `json:"pkg2,omitempty"`  // declared in package api2 instead of api
 	Group  bool      `json:"group,omitempty"`
 }
 
@@ -106,7 +108,12 @@ func lkWellLinked(prefix string, r lkRoute) []string {
 		broken = append(broken, "R6:verb")
 	}
 	// R5 results
-	okErr := func(t string) bool { return t == "error" || t == "ApiError" || t == "*ApiError" }
+	okErr := func(t string) bool {
+		if r.Pkg2 && (t == "ApiError" || t == "*ApiError") {
+			return false // api2.ApiError shares its name with api.ApiError but does not embed error
+		}
+		return t == "error" || t == "ApiError" || t == "*ApiError"
+	}
 	switch len(r.Results) {
 	case 1:
 		if !okErr(r.Results[0]) {
@@ -299,7 +306,7 @@ func lkGenRoute(t *rapid.T, idx int, file string) lkRoute {
 }
 
 var lkPertKinds = []string{"dropAnn", "dupAnn", "renameRef", "retarget", "strayAnn", "aliasUnknown", "aliasDup", "dupTemplateName", "unboundTemplateName",
-	"aliasWrongType", "prefixParam", "pathNotInTemplate", "extraParam", "twoBodies", "bodyAndForm", "retype", "bodyPrimitive", "results", "verb", "changeKind", "neutralAlias", "secCollision", "reorderAnns", "bodyAndForm", "secondBinding", "aliasWrongTypeAll", "aliasWrongTypeGhost", "siblingConflict", "dropTag"}
+	"aliasWrongType", "prefixParam", "pathNotInTemplate", "extraParam", "twoBodies", "bodyAndForm", "retype", "bodyPrimitive", "results", "verb", "changeKind", "neutralAlias", "secCollision", "reorderAnns", "bodyAndForm", "secondBinding", "aliasWrongTypeAll", "aliasWrongTypeGhost", "siblingConflict", "dropTag", "oddNameAliased", "oddNameUnbound", "namesakeNotError"}
 
 func lkGen(t *rapid.T) lkModel {
 	var m lkModel
@@ -498,6 +505,42 @@ func lkApply(m lkModel) ([]lkCtrl, []string) {
 				}
 				r.Anns[j].Alias = b
 				applied = append(applied, "aliasDup:"+b)
+			}
+		case "namesakeNotError":
+			// the controller moves to a second package that declares its own ApiError - a plain struct. A route returning
+			// it there is ill-formed, whatever api.ApiError (which does embed error) is
+			if !c.Pkg2 {
+				c.Pkg2 = true
+				for i := range c.Routes {
+					c.Routes[i].Pkg2 = true
+				}
+				r.Results = []string{"string", []string{"ApiError", "*ApiError"}[p.A%2]}
+				// and the genuine error type is in use elsewhere, so that both namesakes are looked at in one run
+				for oi := range ctrls {
+					if !ctrls[oi].Pkg2 && len(ctrls[oi].Routes) > 0 {
+						ctrls[oi].Routes[0].Results = []string{"string", "ApiError"}
+					}
+				}
+				applied = append(applied, "namesakeNotError")
+			}
+		case "oddNameAliased", "oddNameUnbound":
+			// a URL parameter whose name is not an identifier ({order-id}, {file.name}): legal in a template; bound through
+			// an alias it is fine, left unbound it breaks the template/binding correspondence
+			if i := annIdx(isPath, p.A); i >= 0 {
+				old := r.Anns[i].Ref
+				if r.Anns[i].Alias != "" {
+					old = r.Anns[i].Alias
+				}
+				odd := []string{"order-id", "x-y-z", "a--b"}[p.B%3] // within the annotation value alphabet ([\w-_/\\{} ]): a dot would turn the line into free text
+				if strings.Contains(r.Route, "{"+old+"}") && !strings.Contains(r.Route, "{"+odd+"}") {
+					r.Route = strings.Replace(r.Route, "{"+old+"}", "{"+odd+"}", 1)
+					if p.Kind == "oddNameAliased" {
+						r.Anns[i].Alias = odd
+					} else if r.Anns[i].Alias != "" {
+						r.Anns[i].Alias = "" // bound by its Go name, which the template no longer mentions
+					}
+					applied = append(applied, p.Kind+":"+odd)
+				}
 			}
 		case "dropTag":
 			// neutral for linkage: the controller loses its @Tag, which gleece reports as a warning on the controller
@@ -754,6 +797,13 @@ func lkProject(ctrls []lkCtrl, noise []int) *projgen.Project {
 	for _, c := range ctrls {
 		tag := c.Name
 		pc := &projgen.Controller{Name: c.Name, Pkg: "api", File: c.File, Tag: &tag, Route: c.Prefix, HasRoute: true, Grouped: c.Group}
+		if c.Pkg2 {
+			pc.Pkg = "api2"
+			if p.FindType("api2", "ApiError") == nil {
+				p.Types = append(p.Types, &projgen.TypeDecl{Name: "ApiError", Pkg: "api2", File: "errors.go", Kind: "struct", Fields: []projgen.Field{{Name: "Code", Type: projgen.Prim("int")}}})
+				p.Config.Globs = append(p.Config.Globs, "./api2/*.go")
+			}
+		}
 		if c.NoTag {
 			pc.Tag = nil
 		}
